@@ -291,6 +291,17 @@ class Arr:
     ndim = property(lambda s: s.a.ndim)
     size = property(lambda s: s.a.size)
     nbytes = property(lambda s: s.a.size * s.dtype.itemsize)
+    T = property(lambda s: Arr(s.a.T, s.dtype))
+
+    def transpose(self, *axes):
+        return Arr(self.a.transpose(*axes), self.dtype)
+
+    def reshape(self, *shape):
+        shp = shape[0] if len(shape) == 1 and isinstance(shape[0], (tuple, list)) else shape
+        return Arr(self.a.reshape(tuple(_cidx(x) for x in shp)), self.dtype)
+
+    def ravel(self):
+        return Arr(self.a.ravel(), self.dtype)
 
     def __len__(self):
         return len(self.a)
